@@ -67,6 +67,18 @@ class C15(Oracle):
                 self.tag_of[e.eid] = tag
                 if len(self._partners(tag, e.obj)) >= 1:
                     env.probe("c15_sharing_class_formed")
+        if op == "deepcopy" and out["st"] == "ok" and out["res"] is not None:
+            # copy.deepcopy keeps a tuple of immutables as the very same object, so the deep
+            # copy of a vector built over a caller tuple is itself built over that tuple
+            src = w.handles.get(rec["h"])
+            res = w.entries.get(out["res"])
+            if src is not None and res is not None and self.tag_of.get(src.eid) and not res.is_table:
+                st = _storage(res.obj)
+                if st is not _MISSING and st is _storage(src.obj):
+                    tag = self.tag_of[src.eid]
+                    self.classes.setdefault(tag, []).append(weakref.ref(res.obj))
+                    self.tag_of[res.eid] = tag
+                    env.probe("c15_deepcopy_joins_class")
         if out["kind"] != "write" or op not in ("writeback", "set"):
             return viols
         e = w.entries.get(out["writer"]) if out["writer"] is not None else None
@@ -85,24 +97,31 @@ class C15(Oracle):
                 return viols
             model = self._partners(tag, target) if tag else []
             truth = real_sharers(target)
+            live_paths = sorted({x.born.split(":")[0] for x in w.tables()})
+            sig = {"op": op, "target_born": e.born.split(":")[0], "empty": n == 0,
+                   "vid": (rec.get("vid") or {}).get("p", "fresh"), "tables_alive": bool(live_paths)}
             if truth is None:
-                sharers = model
                 env.probe("c15_ground_truth_unavailable")
-            else:
-                sharers = truth
-                if truth and not model:
-                    env.probe("c15_unmodelled_sharing")
-            if sharers:
+            held = {id(x.obj): x for x in w.live_entries()}
+            if model and (truth is None or truth):
+                # another not-yet-collected vector built over the same caller tuple: a legitimate refusal
                 env.probe("c15_refused_with_real_partner")
-                held = {id(x.obj) for x in w.live_entries()}
-                if not any(id(s) in held for s in sharers):
+                if not any(id(s) in held for s in (truth if truth is not None else model)):
                     env.probe("c15_zombie_partner_at_write")
-                if n == 0:
-                    env.probe("c15_empty_vector_refusals")
+            elif n == 0 and truth:
+                # all empty vectors share CPython's interned (): counted, not gated (DESIGN 4.7)
+                env.probe("c15_empty_vector_refusals")
+            elif truth:
+                # storage really is shared, but not because the caller supplied one tuple twice: the
+                # library itself made a copy / slice / operation result / column share storage
+                born = sorted({held[id(s)].born.split(":")[0] if id(s) in held else "unheld" for s in truth})
+                sig["how"] = "library-made-sharing"
+                sig["sharer_born"] = born
+                viols.append(Violation("C15", "C15/spurious-refusal",
+                                       "write to %s (born by %s, %d elements) refused with AliasError: it shares storage with %s, but neither was "
+                                       "built over a caller-supplied tuple - the library made them share" % (w.name_of(e), e.born, n, born), sig))
             else:
-                live_paths = sorted({x.born.split(":")[0] for x in w.tables()})
-                sig = {"op": op, "target_born": e.born.split(":")[0], "empty": n == 0,
-                       "vid": (rec.get("vid") or {}).get("p", "fresh"), "tables_alive": bool(live_paths)}
+                sig["how"] = "no-sharer" if not model else "partner-no-longer-shares"
                 viols.append(Violation("C15", "C15/spurious-refusal",
                                        "write to %s (born by %s, %d elements) refused with AliasError although no other live vector "
                                        "shares its storage; live tables born by %s; identity policy %s" % (
